@@ -15,6 +15,10 @@
 //!                                             capture sequence (public query API), for the multi-layer merge model
 //!   K <lang> <names> <hex>                    single layer WITH its locals query (no injections) + the raw
 //!                                             captures classified as the code does, for the locals model
+//!   F <root> <variant> <names> <hex>          multi-layer highlight WITH locals queries, variant 0..3 (3 = injection.self /
+//!                                             injection.parent), + all layers, raw matches and the `new` table for the end-to-end model
+//!   C <root> <variant> <names> <crname 0|1> <hex>  the C API (ts_highlighter_* / ts_highlight_buffer_*): html + line
+//!                                             offsets through FFI, rendered again by the Rust API and the model
 //! Events are written `S<start>-<end>`, `H<highlight>`, `E`, comma separated.
 use std::collections::BTreeMap;
 use std::io::Write;
@@ -59,7 +63,7 @@ struct LangDef {
     language: Language,
     highlights: String,
     locals: String,
-    inj: [String; 3],
+    inj: [String; 4],
 }
 
 fn load_langs() -> Vec<LangDef> {
@@ -68,9 +72,9 @@ fn load_langs() -> Vec<LangDef> {
     let tmpl = zoo::load("tmpl").expect("zoo tmpl");
     let host = zoo::load("host").expect("zoo host");
     vec![
-        LangDef { language: stmt.language, highlights: STMT_HL.into(), locals: STMT_LOCALS.into(), inj: [String::new(), STMT_INJ_B.into(), STMT_INJ_B.into()] },
-        LangDef { language: tmpl.language, highlights: q("tmpl", "highlights.scm"), locals: String::new(), inj: [q("tmpl", "injections.scm"), q("tmpl", "injections_b.scm"), q("tmpl", "injections.scm")] },
-        LangDef { language: host.language, highlights: q("host", "highlights.scm"), locals: q("host", "locals.scm"), inj: [q("host", "injections.scm"), q("host", "injections.scm"), q("host", "injections.scm")] },
+        LangDef { language: stmt.language, highlights: STMT_HL.into(), locals: STMT_LOCALS.into(), inj: [String::new(), STMT_INJ_B.into(), STMT_INJ_B.into(), STMT_INJ_B.into()] },
+        LangDef { language: tmpl.language, highlights: q("tmpl", "highlights.scm"), locals: String::new(), inj: [q("tmpl", "injections.scm"), q("tmpl", "injections_b.scm"), q("tmpl", "injections.scm"), q("tmpl", "injections_c.scm")] },
+        LangDef { language: host.language, highlights: q("host", "highlights.scm"), locals: q("host", "locals.scm"), inj: [q("host", "injections.scm"), q("host", "injections.scm"), q("host", "injections.scm"), q("host", "injections_c.scm")] },
     ]
 }
 
@@ -130,14 +134,29 @@ fn unhx(s: &str) -> Vec<u8> {
 }
 
 /// The REAL renderer on an event stream. None = it panicked (slice index out of range).
+/// What the attribute callback writes: 0 `class=c<h>`, 1 quotes and `&`, 2 nothing, 3 contains `>`
+/// (outside the renderer's contract: correspondence only, no text judge).
+fn attr_bytes(mode: usize, h: usize) -> Vec<u8> {
+    match mode {
+        1 => format!("class=\"h{h}\" data-q='a&b'").into_bytes(),
+        2 => Vec::new(),
+        3 => format!("x>y{h}").into_bytes(),
+        _ => format!("class=c{h}").into_bytes(),
+    }
+}
+
 fn real_render(evs: &[HighlightEvent], src: &[u8], crh: Option<usize>) -> Option<(Vec<u8>, Vec<u32>)> {
+    real_render_attr(evs, src, crh, 0)
+}
+
+fn real_render_attr(evs: &[HighlightEvent], src: &[u8], crh: Option<usize>, mode: usize) -> Option<(Vec<u8>, Vec<u32>)> {
     let evs = evs.to_vec();
     let src = src.to_vec();
     panic::catch_unwind(move || {
         let mut r = HtmlRenderer::new();
         r.set_carriage_return_highlight(crh.map(Highlight));
         r.render(evs.into_iter().map(Ok), &src, &|h: Highlight, out: &mut Vec<u8>| {
-            out.extend(format!("class=c{}", h.0).bytes());
+            out.extend(attr_bytes(mode, h.0));
         })
         .unwrap();
         (r.html.clone(), r.line_offsets.clone())
@@ -161,10 +180,14 @@ fn emit_lossy(out: &mut impl Write, id: &str, bytes: &[u8]) {
 }
 
 fn emit_render(out: &mut impl Write, id: &str, crh: Option<usize>, src: &[u8], evs: &[HighlightEvent]) {
+    emit_render_attr(out, id, crh, src, evs, 0)
+}
+
+fn emit_render_attr(out: &mut impl Write, id: &str, crh: Option<usize>, src: &[u8], evs: &[HighlightEvent], mode: usize) {
     let crs = crh.map(|c| c.to_string()).unwrap_or("-".into());
-    writeln!(out, "spec {id} R {crs} {} {}", hx(src), evs_to_string(evs)).unwrap();
-    writeln!(out, "case {id}\nsrc {}\nevs {}\ncrh {crs}", hx(src), evs_to_string(evs)).unwrap();
-    match real_render(evs, src, crh) {
+    writeln!(out, "spec {id} R {crs} {} {} {mode}", hx(src), evs_to_string(evs)).unwrap();
+    writeln!(out, "case {id}\nsrc {}\nevs {}\ncrh {crs}\nattr {mode}", hx(src), evs_to_string(evs)).unwrap();
+    match real_render_attr(evs, src, crh, mode) {
         Some((html, lines)) => {
             let l: Vec<String> = lines.iter().map(|x| x.to_string()).collect();
             writeln!(out, "html {}\nlines {}", hx(&html), if l.is_empty() { "-".into() } else { l.join(",") }).unwrap();
@@ -893,6 +916,421 @@ fn emit_locals(w: &mut World, out: &mut impl Write, id: &str, li: usize, names_m
     writeln!(out, "lcaps {}\nrun lmerge", if caps.is_empty() { "-".into() } else { caps.join(",") }).unwrap();
 }
 
+struct FullOut {
+    defs: Vec<(usize, usize, Vec<(usize, usize)>, Vec<String>)>, // lang, depth, ranges, caps
+    news: Vec<(usize, usize, Vec<(usize, usize)>, Vec<usize>)>,   // lang, depth, ranges, ids
+    names: Vec<Vec<u8>>,                                          // interned strings; 0..3 = LANGS
+    overflow: bool,
+}
+
+impl FullOut {
+    fn intern(&mut self, b: &[u8]) -> usize {
+        if let Some(i) = self.names.iter().position(|x| x == b) {
+            i
+        } else {
+            self.names.push(b.to_vec());
+            self.names.len() - 1
+        }
+    }
+}
+
+/// What the real `injection_for_match` + injection branch would do (mirror), AND the raw data of the
+/// match for the model's own `injectionForMatch`.
+struct InjData {
+    lang_name: Option<String>,
+    content: Option<(usize, usize)>,
+    include_children: bool,
+    kind: String,
+}
+
+fn inj_data<'t>(fo: &mut FullOut, query: &Query, m: &tree_sitter::QueryMatch<'_, 't>, src: &[u8], self_lang: &str, root_lang: &str) -> (InjData, Option<Node<'t>>) {
+    let content_ix = query.capture_index_for_name("injection.content");
+    let lang_ix = query.capture_index_for_name("injection.language");
+    let mut lang_name: Option<String> = None;
+    let mut lang_cap: Option<usize> = None;
+    let mut content: Option<Node<'t>> = None;
+    for c in m.captures {
+        if Some(c.index) == lang_ix {
+            lang_name = c.node.utf8_text(src).ok().map(|s| s.to_string());
+            lang_cap = lang_name.as_ref().map(|s| fo.intern(s.as_bytes()));
+        } else if Some(c.index) == content_ix {
+            content = Some(c.node);
+        }
+    }
+    let mut include_children = false;
+    let mut props = Vec::new();
+    for p in query.property_settings(m.pattern_index) {
+        match p.key.as_ref() {
+            "injection.language" => {
+                if let Some(v) = p.value.as_ref() {
+                    props.push(format!("L{}", fo.intern(v.as_bytes())));
+                    if lang_name.is_none() {
+                        lang_name = Some(v.to_string());
+                    }
+                } else {
+                    props.push("O".into());
+                }
+            }
+            "injection.self" => {
+                props.push("S".into());
+                if lang_name.is_none() {
+                    lang_name = Some(self_lang.to_string());
+                }
+            }
+            "injection.parent" => {
+                props.push("P".into());
+                if lang_name.is_none() {
+                    lang_name = Some(root_lang.to_string());
+                }
+            }
+            "injection.include-children" => {
+                props.push("C".into());
+                include_children = true;
+            }
+            _ => props.push("O".into()),
+        }
+    }
+    let content_s = match content {
+        Some(n) => {
+            let mut parts = vec![format!("{}~{}", n.start_byte(), n.end_byte())];
+            let mut c = n.walk();
+            for ch in n.children(&mut c) {
+                parts.push(format!("{}~{}", ch.start_byte(), ch.end_byte()));
+            }
+            parts.join(":")
+        }
+        None => "n".into(),
+    };
+    let kind = format!("I{};{};{}", lang_cap.map(|x| x.to_string()).unwrap_or("n".into()), content_s, if props.is_empty() { "_".into() } else { props.join(".") });
+    (InjData { lang_name, content: content.map(|n| (n.start_byte(), n.end_byte())), include_children, kind }, content)
+}
+
+/// Mirror of `HighlightIterLayer::new` for configurations WITH locals; fills `fo`.
+#[allow(clippy::too_many_arguments)]
+fn build_full(langs: &[LangDef], cfgs: &[HighlightConfiguration], variant: usize, names: &[String], li0: usize, depth0: usize, ranges0: Vec<(usize, usize)>, src: &[u8], root: usize, fo: &mut FullOut) -> Vec<usize> {
+    let mut result = Vec::new();
+    let mut queue: Vec<(usize, usize, Vec<(usize, usize)>)> = Vec::new();
+    let (mut li, mut depth, mut ranges) = (li0, depth0, ranges0.clone());
+    loop {
+        if depth > 12 || fo.defs.len() > 250 {
+            fo.overflow = true;
+            return result;
+        }
+        let ld = &langs[li];
+        let mut parser = Parser::new();
+        parser.set_language(&ld.language).unwrap();
+        let rr: Vec<Range> = ranges.iter().map(|&(s, e)| to_range(src, s, e)).collect();
+        if parser.set_included_ranges(&rr).is_ok() {
+            let tree = parser.parse(src, None).expect("parse");
+            let inj_src = &ld.inj[variant];
+            let inj_patterns = if inj_src.trim().is_empty() { 0 } else { Query::new(&ld.language, inj_src).expect("inj query").pattern_count() };
+            let locals_patterns = if ld.locals.trim().is_empty() { 0 } else { Query::new(&ld.language, &ld.locals).expect("locals query").pattern_count() };
+            if inj_patterns > 0 {
+                let cq = Query::new(&ld.language, inj_src).unwrap();
+                let mut entries: Vec<(Option<String>, Vec<Node>, bool)> = vec![(None, Vec::new(), false); cq.pattern_count()];
+                let mut cursor = QueryCursor::new();
+                let mut matches = cursor.matches(&cq, tree.root_node(), src);
+                while let Some(m) = matches.next() {
+                    if !cq.property_settings(m.pattern_index).iter().any(|p| p.key.as_ref() == "injection.combined") {
+                        continue;
+                    }
+                    // `new` passes its own `parent_name` (None from `highlight`, the root language from `next`)
+                    let parent = if depth0 == 0 { "" } else { LANGS[root] };
+                    let (d, node) = inj_data(fo, &cq, m, src, LANGS[li], parent);
+                    let e = &mut entries[m.pattern_index];
+                    if d.lang_name.is_some() {
+                        e.0 = d.lang_name;
+                    }
+                    if let Some(n) = node {
+                        e.1.push(n);
+                    }
+                    e.2 = d.include_children;
+                }
+                drop(matches);
+                for (name, nodes, incl) in entries {
+                    if let (Some(name), false) = (name, nodes.is_empty()) {
+                        if let Some(ci) = lang_index(&name) {
+                            let r = content_ranges(&ranges, &nodes, incl);
+                            if !r.is_empty() {
+                                queue.push((ci, depth + 1, r));
+                            }
+                        }
+                    }
+                }
+            }
+            let id = fo.defs.len();
+            fo.defs.push((li, depth, ranges.clone(), Vec::new()));
+            let query = &cfgs[li].query;
+            let scope_ix = query.capture_index_for_name("local.scope");
+            let def_ix = query.capture_index_for_name("local.definition");
+            let val_ix = query.capture_index_for_name("local.definition-value");
+            let ref_ix = query.capture_index_for_name("local.reference");
+            let cap_names = query.capture_names();
+            let mut caps = Vec::new();
+            let mut cursor = QueryCursor::new();
+            let mut it = cursor.captures(query, tree.root_node(), src);
+            while let Some((m, ci)) = it.next() {
+                let c = m.captures[*ci];
+                let (s, e, nid) = (c.node.start_byte(), c.node.end_byte(), c.node.id());
+                let text = &src[s.min(src.len())..e.min(src.len())];
+                let ok = std::str::from_utf8(text).is_ok() as u8;
+                let kind = if m.pattern_index < inj_patterns {
+                    let (d, node) = inj_data(fo, query, m, src, LANGS[li], LANGS[root]);
+                    m.remove();
+                    if let (Some(name), Some(node)) = (&d.lang_name, node) {
+                        if let Some(ci2) = lang_index(name) {
+                            let r = content_ranges(&ranges, &[node], d.include_children);
+                            if !r.is_empty() && !fo.news.iter().any(|n| n.0 == ci2 && n.1 == depth + 1 && n.2 == r) {
+                                let ids = build_full(langs, cfgs, variant, names, ci2, depth + 1, r.clone(), src, root, fo);
+                                fo.news.push((ci2, depth + 1, r, ids));
+                            } else if !r.is_empty() {
+                                // the same (language, depth, ranges) again: `new` would build an identical set of layers;
+                                // the table has one entry per key, so give up on this document
+                                fo.overflow = true;
+                            }
+                        }
+                    }
+                    let _ = d.content;
+                    d.kind
+                } else if m.pattern_index < inj_patterns + locals_patterns {
+                    if Some(c.index) == scope_ix {
+                        let mut inherits = true;
+                        for p in query.property_settings(m.pattern_index) {
+                            if p.key.as_ref() == "local.scope-inherits" {
+                                inherits = p.value.as_ref().map_or(true, |v| v.as_ref() == "true");
+                            }
+                        }
+                        format!("S{}", inherits as u8)
+                    } else if Some(c.index) == def_ix {
+                        let mut value_end = 0usize;
+                        for c2 in m.captures {
+                            if Some(c2.index) == val_ix {
+                                value_end = c2.node.end_byte();
+                            }
+                        }
+                        format!("D{}:{}:{}", fo.intern(text), value_end, ok)
+                    } else if Some(c.index) == ref_ix {
+                        format!("R{}:{}", fo.intern(text), ok)
+                    } else {
+                        "O".to_string()
+                    }
+                } else {
+                    let nonlocal = query.property_predicates(m.pattern_index).iter().any(|(p, positive)| !*positive && p.key.as_ref() == "local");
+                    let h = highlight_index(cap_names[c.index as usize], names);
+                    format!("H{}:{}", h.map(|x| x.to_string()).unwrap_or("n".into()), nonlocal as u8)
+                };
+                caps.push(format!("{s}-{e}-{nid}-{kind}"));
+            }
+            fo.defs[id].3 = caps;
+            result.push(id);
+        }
+        if queue.is_empty() {
+            break;
+        }
+        let (a, b, c) = queue.remove(0);
+        li = a;
+        depth = b;
+        ranges = c;
+    }
+    result
+}
+
+/// Multi-layer highlight with locals AND injections: real events + everything the end-to-end model needs.
+fn emit_full(w: &mut World, out: &mut impl Write, id: &str, root: usize, variant: usize, names_mode: &str, src: &[u8]) -> bool {
+    let all = names_of(&w.langs, variant);
+    let names = pick_names(&all, names_mode);
+    let mut cfgs = Vec::new();
+    for (i, ld) in w.langs.iter().enumerate() {
+        let mut cfg = HighlightConfiguration::new(ld.language.clone(), LANGS[i], &ld.highlights, &ld.inj[variant], &ld.locals).expect("config");
+        cfg.configure(&names);
+        cfgs.push(cfg);
+    }
+    watch_begin(format!("F {} {variant} {names_mode} {}", LANGS[root], hx(src)));
+    let mut evs = Vec::new();
+    let mut err = None;
+    {
+        let cfgs_ref = &cfgs;
+        match w.highlighter.highlight(&cfgs[root], src, None, None, move |name| lang_index(name).map(|i| &cfgs_ref[i])) {
+            Ok(it) => {
+                for e in it {
+                    match e {
+                        Ok(e) => evs.push(e),
+                        Err(e) => {
+                            err = Some(format!("{e}"));
+                            break;
+                        }
+                    }
+                    if evs.len() > 200_000 {
+                        err = Some("too-many-events".into());
+                        break;
+                    }
+                }
+            }
+            Err(e) => err = Some(format!("{e}")),
+        }
+    }
+    let mut fo = FullOut { defs: Vec::new(), news: Vec::new(), names: LANGS.iter().map(|l| l.as_bytes().to_vec()).collect(), overflow: false };
+    let top = build_full(&w.langs, &cfgs, variant, &names, root, 0, vec![(0, usize::MAX)], src, root, &mut fo);
+    watch_end();
+    if fo.overflow {
+        return false;
+    }
+    let rg = |v: &[(usize, usize)]| if v.is_empty() { "-".to_string() } else { v.iter().map(|(s, e)| format!("{s}-{e}")).collect::<Vec<_>>().join(",") };
+    let idl = |v: &[usize]| if v.is_empty() { "-".to_string() } else { v.iter().map(|x| x.to_string()).collect::<Vec<_>>().join(",") };
+    writeln!(out, "spec {id} F {} {variant} {names_mode} {}", LANGS[root], hx(src)).unwrap();
+    writeln!(out, "case {id}\nsrc {}\nevs {}", hx(src), evs_to_string(&evs)).unwrap();
+    if let Some(e) = &err {
+        writeln!(out, "error {}", e.replace(' ', "_")).unwrap();
+    }
+    for (i, d) in fo.defs.iter().enumerate() {
+        writeln!(out, "fdef {i} {} {} {} {}", d.0, d.1, rg(&d.2), if d.3.is_empty() { "-".into() } else { d.3.join(",") }).unwrap();
+    }
+    for nw in &fo.news {
+        writeln!(out, "fnew {} {} {} {}", nw.0, nw.1, rg(&nw.2), idl(&nw.3)).unwrap();
+    }
+    writeln!(out, "ftop {root} {}", idl(&top)).unwrap();
+    fo.defs.len() > 1
+}
+
+/// The C API of crates/highlight/src/c_lib.rs, called through its `extern "C"` entry points.
+struct CApi {
+    hl: *mut tree_sitter_highlight::c::TSHighlighter,
+    buf: *mut tree_sitter_highlight::c::TSHighlightBuffer, // one buffer reused for every document
+    _keep: Vec<std::ffi::CString>,
+    _ptrs: Vec<Vec<*const std::os::raw::c_char>>,
+    names: Vec<String>,
+}
+
+fn capi_new(langs: &[LangDef], variant: usize, names: &[String]) -> (CApi, Vec<i32>) {
+    use std::ffi::CString;
+    use tree_sitter_highlight::c;
+    let mut keep: Vec<CString> = Vec::new();
+    let name_c: Vec<CString> = names.iter().map(|n| CString::new(n.as_str()).unwrap()).collect();
+    let attr_c: Vec<CString> = (0..names.len()).map(|i| CString::new(format!("class=c{i}")).unwrap()).collect();
+    let name_p: Vec<*const std::os::raw::c_char> = name_c.iter().map(|c| c.as_ptr()).collect();
+    let attr_p: Vec<*const std::os::raw::c_char> = attr_c.iter().map(|c| c.as_ptr()).collect();
+    let hl = unsafe { c::ts_highlighter_new(name_p.as_ptr(), attr_p.as_ptr(), names.len() as u32) };
+    let mut codes = Vec::new();
+    for (i, ld) in langs.iter().enumerate() {
+        let lname = CString::new(LANGS[i]).unwrap();
+        let scope = CString::new(format!("scope.{}", LANGS[i])).unwrap();
+        let regex = CString::new(format!("^{}$", LANGS[i])).unwrap();
+        let (h, j, l) = (&ld.highlights, &ld.inj[variant], &ld.locals);
+        let rc = unsafe {
+            c::ts_highlighter_add_language(hl, lname.as_ptr(), scope.as_ptr(), regex.as_ptr(), ld.language.clone(), h.as_ptr().cast(), j.as_ptr().cast(), l.as_ptr().cast(), h.len() as u32, j.len() as u32, l.len() as u32)
+        };
+        codes.push(rc as i32);
+        keep.extend([lname, scope, regex]);
+    }
+    keep.extend(name_c);
+    keep.extend(attr_c);
+    let buf = c::ts_highlight_buffer_new();
+    (CApi { hl, buf, _keep: keep, _ptrs: vec![name_p, attr_p], names: names.to_vec() }, codes)
+}
+
+impl CApi {
+    /// (error code, html, line offsets)
+    fn highlight(&self, scope: &str, src: &[u8], flag: Option<&std::sync::atomic::AtomicUsize>) -> (i32, Vec<u8>, Vec<u32>) {
+        use tree_sitter_highlight::c;
+        let sc = std::ffi::CString::new(scope).unwrap();
+        unsafe {
+            let rc = c::ts_highlighter_highlight(self.hl, sc.as_ptr(), src.as_ptr().cast(), src.len() as u32, self.buf, flag.map_or(std::ptr::null(), |f| f as *const _));
+            let len = c::ts_highlight_buffer_len(self.buf) as usize;
+            let html = std::slice::from_raw_parts(c::ts_highlight_buffer_content(self.buf), len).to_vec();
+            let nl = c::ts_highlight_buffer_line_count(self.buf) as usize;
+            let lines = std::slice::from_raw_parts(c::ts_highlight_buffer_line_offsets(self.buf), nl).to_vec();
+            (rc as i32, html, lines)
+        }
+    }
+}
+
+impl Drop for CApi {
+    fn drop(&mut self) {
+        unsafe {
+            tree_sitter_highlight::c::ts_highlight_buffer_delete(self.buf);
+            tree_sitter_highlight::c::ts_highlighter_delete(self.hl);
+        }
+    }
+}
+
+fn capi_err(out: &mut impl Write, id: &str, name: &str, got: i32, want: i32) {
+    writeln!(out, "spec {id} E {name}").unwrap();
+    writeln!(out, "case {id}\ncapierr {name} {got} {want}").unwrap();
+}
+
+/// Error codes of the C API (ErrorCode: Ok 0, UnknownScope 1, Timeout 2, InvalidLanguage 3, InvalidUtf8 4,
+/// InvalidRegex 5, InvalidQuery 6, InvalidLanguageName 7).
+fn emit_capi_errors(w: &mut World, out: &mut impl Write) -> usize {
+    use std::ffi::CString;
+    use tree_sitter_highlight::c;
+    let names = names_of(&w.langs, 0);
+    let (api, codes) = capi_new(&w.langs, 0, &names);
+    for (i, rc) in codes.iter().enumerate() {
+        capi_err(out, &format!("E-add-{}", LANGS[i]), "add_language_ok", *rc, 0);
+    }
+    let (rc, _, _) = api.highlight("scope.nosuch", b"x = 1;", None);
+    capi_err(out, "E-unknown-scope", "unknown_scope", rc, 1);
+    let flag = std::sync::atomic::AtomicUsize::new(1);
+    // the flag is polled every 100 iterations of the event loop (and by the parser's progress callback),
+    // so it is honoured on a document with a few hundred captures, not on a tiny one
+    let big: Vec<u8> = "x = x + 1;\n".repeat(300).into_bytes();
+    let (rc, _, _) = api.highlight("scope.stmt", &big, Some(&flag));
+    capi_err(out, "E-cancelled", "cancellation_flag_set", rc, 2);
+    let zero = std::sync::atomic::AtomicUsize::new(0);
+    let (rc, _, _) = api.highlight("scope.stmt", &big, Some(&zero));
+    capi_err(out, "E-not-cancelled", "cancellation_flag_clear", rc, 0);
+    // the same buffer is usable after a cancelled call
+    let (rc, html, _) = api.highlight("scope.stmt", b"x", None);
+    capi_err(out, "E-after-cancel", "ok_after_cancel", rc, 0);
+    capi_err(out, "E-after-cancel-html", "html_nonempty_after_cancel", (!html.is_empty()) as i32, 1);
+    let ld = &w.langs[0];
+    let lname = CString::new("stmt").unwrap();
+    let scope = CString::new("scope.x").unwrap();
+    let add = |hq: &[u8], regex: Option<&CString>, scope: &CString, lname: &CString| -> i32 {
+        unsafe { c::ts_highlighter_add_language(api.hl, lname.as_ptr(), scope.as_ptr(), regex.map_or(std::ptr::null(), |r| r.as_ptr()), ld.language.clone(), hq.as_ptr().cast(), std::ptr::null(), std::ptr::null(), hq.len() as u32, 0, 0) as i32 }
+    };
+    capi_err(out, "E-bad-query", "invalid_query", add(b"(no_such_node) @x", None, &scope, &lname), 6);
+    let bad_re = CString::new("(").unwrap();
+    capi_err(out, "E-bad-regex", "invalid_regex", add(b"(number) @s.number", Some(&bad_re), &scope, &lname), 5);
+    let bad_scope = CString::new(vec![0xffu8, 0x41]).unwrap();
+    capi_err(out, "E-bad-scope-utf8", "invalid_utf8_scope", add(b"(number) @s.number", None, &bad_scope, &lname), 4);
+    let bad_name = CString::new(vec![0xffu8, 0x41]).unwrap();
+    capi_err(out, "E-bad-lang-name", "invalid_language_name", add(b"(number) @s.number", None, &scope, &bad_name), 7);
+    capi_err(out, "E-bad-query-utf8", "invalid_utf8_query", add(&[0x28, 0xff, 0x29], None, &scope, &lname), 4);
+    capi_err(out, "E-null-regex-ok", "null_regex_ok", add(b"(number) @s.number", None, &scope, &lname), 0);
+    13 + codes.len()
+}
+
+/// One document through the C API; the html must be what the Rust API renders for the same
+/// configuration, and goes to the driver as a render case (model renderer + judge).
+fn emit_capi(w: &mut World, api: &CApi, out: &mut impl Write, id: &str, root: usize, variant: usize, names_mode: &str, src: &[u8]) {
+    let names = &api.names;
+    let mut cfgs = Vec::new();
+    for (i, ld) in w.langs.iter().enumerate() {
+        let mut cfg = HighlightConfiguration::new(ld.language.clone(), LANGS[i], &ld.highlights, &ld.inj[variant], &ld.locals).expect("config");
+        cfg.configure(names);
+        cfgs.push(cfg);
+    }
+    watch_begin(format!("C {} {variant} {names_mode} {}", LANGS[root], hx(src)));
+    let mut evs = Vec::new();
+    {
+        let cfgs_ref = &cfgs;
+        if let Ok(it) = w.highlighter.highlight(&cfgs[root], src, None, None, move |name| lang_index(name).map(|i| &cfgs_ref[i])) {
+            for e in it.flatten() {
+                evs.push(e);
+            }
+        }
+    }
+    let crh = names.iter().position(|n| n == "carriage-return");
+    let (rc, html, lines) = api.highlight(&format!("scope.{}", LANGS[root]), src, None);
+    watch_end();
+    let crs = crh.map(|c| c.to_string()).unwrap_or("-".into());
+    writeln!(out, "spec {id} C {} {variant} {names_mode} {}", LANGS[root], hx(src)).unwrap();
+    writeln!(out, "case {id}\nsrc {}\nevs {}\ncrh {crs}", hx(src), evs_to_string(&evs)).unwrap();
+    let l: Vec<String> = lines.iter().map(|x| x.to_string()).collect();
+    writeln!(out, "html {}\nlines {}\ncapirc {rc}\nrun render", hx(&html), if l.is_empty() { "-".into() } else { l.join(",") }).unwrap();
+}
+
 // ---------------------------------------------------------------------------------------------
 // generators
 /// Long inputs: `prefix` ASCII filler bytes, then `mid`, then a short tail.  The filler has no
@@ -1201,6 +1639,30 @@ fn run_spec(w: &mut World, out: &mut impl Write, id: &str, fields: &[&str]) -> b
             emit_render(out, id, crh(c), &unhx(s), &parse_evs(e));
             true
         }
+        ["R", c, s, e, m] => {
+            emit_render_attr(out, id, crh(c), &unhx(s), &parse_evs(e), m.parse().unwrap_or(0));
+            true
+        }
+        ["C", root, variant, names, s] => {
+            let r = lang_index(root).expect("root language");
+            let v: usize = variant.parse().unwrap_or(0);
+            let mut nm = pick_names(&names_of(&w.langs, v), names);
+            if names.ends_with("+cr") {
+                nm.push("carriage-return".into());
+            }
+            let (api, _) = capi_new(&w.langs, v, &nm);
+            emit_capi(w, &api, out, id, r, v, names, &unhx(s));
+            true
+        }
+        ["E", ..] => {
+            emit_capi_errors(w, out);
+            true
+        }
+        ["F", root, variant, names, s] => {
+            let r = lang_index(root).expect("root language");
+            emit_full(w, out, id, r, variant.parse().unwrap_or(0), names, &unhx(s));
+            true
+        }
         ["N", root, variant, names, s] => {
             let r = lang_index(root).expect("root language");
             emit_multi(w, out, id, r, variant.parse().unwrap_or(0), names, &unhx(s));
@@ -1238,7 +1700,7 @@ fn main() {
         let specs = std::fs::read_to_string(&args[3]).unwrap();
         for (i, line) in specs.lines().enumerate() {
             let f: Vec<&str> = line.split_whitespace().collect();
-            let f = if !f.is_empty() && !["L", "R", "H", "M", "N", "K"].contains(&f[0]) { &f[1..] } else { &f[..] };
+            let f = if !f.is_empty() && !["L", "R", "H", "M", "N", "K", "F", "C", "E"].contains(&f[0]) { &f[1..] } else { &f[..] };
             if run_spec(&mut w, &mut out, &format!("r{i}"), f) {
                 n += 1;
             }
@@ -1306,7 +1768,13 @@ fn main() {
         };
         let evs = gen_stream(&mut rng, &src, shape);
         let crh = if rng.chance(1, 2) { Some(rng.below(20)) } else { None };
-        emit_render(&mut out, &format!("R{i}"), crh, &src, &evs);
+        let mode = match rng.below(10) {
+            0 | 1 => 1,
+            2 => 2,
+            3 => 3,
+            _ => 0,
+        };
+        emit_render_attr(&mut out, &format!("R{i}"), crh, &src, &evs, mode);
         n += 1;
     }
     // 4. real highlighting
@@ -1481,6 +1949,81 @@ fn main() {
             multi += 1;
         }
         n += 1;
+    }
+    // 6b. end-to-end: locals + injections together (variants 0..3), model-driven injection step
+    let nf = if thorough { 4000 } else { 480 };
+    let mut fmulti = 0usize;
+    for i in 0..nf {
+        let root = i % 3;
+        let variant = (i / 3) % 4;
+        let doc: Vec<u8> = match root {
+            0 => {
+                if rng.chance(1, 3) {
+                    let b = *rng.pick(&[5usize, 20, 60, 150]);
+                    gen_stmt(&stmt_gg, &mut rng, b)
+                } else {
+                    gen_stmt_locals(&mut rng, 2).into_bytes()
+                }
+            }
+            1 => gen_tmpl(&stmt_gg, &mut rng, 2).into_bytes(),
+            _ => {
+                let mut d = gen_host(&stmt_gg, &mut rng, 3);
+                if variant == 3 && rng.chance(1, 2) {
+                    d.push_str(&format!(" me($x`{}` {}) ", gen_host(&stmt_gg, &mut rng, 1).replace('`', "'"), rng.pick(&WORDS)));
+                }
+                d.into_bytes()
+            }
+        };
+        let level = match rng.below(8) {
+            0 => 1,
+            1 => 2,
+            2 => 3,
+            _ => 0,
+        };
+        let mut doc = spice_doc(&mut rng, doc, level);
+        doc.truncate(6000);
+        let names = match rng.below(6) {
+            0 => "generic".to_string(),
+            1 | 2 => format!("sub{}", rng.below(1000)),
+            _ => "all".to_string(),
+        };
+        if emit_full(&mut w, &mut out, &format!("F{i}"), root, variant, &names, &doc) {
+            fmulti += 1;
+        }
+        n += 1;
+    }
+    eprintln!("c17: {nf} end-to-end cases of which {fmulti} with >1 layer");
+    // 6c. the C API: error codes, then documents through ONE highlighter + ONE buffer per (variant, names)
+    n += emit_capi_errors(&mut w, &mut out);
+    let nc = if thorough { 1200 } else { 160 };
+    for v in 0..4usize {
+        for (k, mode) in ["all", "all+cr", "generic"].iter().enumerate() {
+            let mut nm = pick_names(&names_of(&w.langs, v), mode.trim_end_matches("+cr"));
+            if mode.ends_with("+cr") {
+                nm.push("carriage-return".into());
+            }
+            let (api, _) = capi_new(&w.langs, v, &nm);
+            for i in 0..(nc / 12) {
+                let root = (i + k) % 3;
+                let doc: Vec<u8> = match root {
+                    0 => gen_stmt_locals(&mut rng, 2).into_bytes(),
+                    1 => gen_tmpl(&stmt_gg, &mut rng, 2).into_bytes(),
+                    _ => gen_host(&stmt_gg, &mut rng, 2).into_bytes(),
+                };
+                let level = match rng.below(6) {
+                    0 | 1 => 1,
+                    2 => 2,
+                    _ => 0,
+                };
+                let mut doc = spice_doc(&mut rng, doc, level);
+                doc.truncate(4000);
+                if doc.len() >= 2 && (doc[..2] == [0xFF, 0xFE] || doc[..2] == [0xFE, 0xFF]) {
+                    doc.insert(0, b' '); // a UTF-16 BOM would switch the C API to UTF-16
+                }
+                emit_capi(&mut w, &api, &mut out, &format!("C{v}-{k}-{i}"), root, v, mode, &doc);
+                n += 1;
+            }
+        }
     }
     // 7. single layer with its locals query: real events vs the locals model
     let nk = if thorough { 3000 } else { 300 };
